@@ -329,10 +329,13 @@ def wl_traceback(ctx, rng, case_no):
         else:
             return
         extra = rng.choice([0, 1, 3, 5])
+        show_locals = rng.random() < 0.25
         tbr = Traceback.from_exception(et, ev, tb, width=rng.choice([100, 60, 120]), extra_lines=extra,
-                                       word_wrap=rng.random() < 0.2, indent_guides=rng.random() < 0.5)
+                                       word_wrap=rng.random() < 0.2, indent_guides=rng.random() < 0.5,
+                                       show_locals=show_locals)
+        ctx.hist("traceback_show_locals", show_locals)
         console = consoles.layout_console(rng.choice([100, 120, 80]))
-        wit = {"source": src, "raise_lines": info["raise_lines"], "extra_lines": extra}
+        wit = {"source": src, "raise_lines": info["raise_lines"], "extra_lines": extra, "show_locals": show_locals}
         try:
             shown = render_plain(console, tbr)
         except Exception as e:
@@ -369,6 +372,9 @@ def wl_traceback(ctx, rng, case_no):
             num, text = int(m.group(1)), unguide(m.group(2)).rstrip(" │")
             text = text.rstrip()
             want = want_text.expandtabs(4).rstrip()
+            if show_locals and text.startswith(want) and re.match(r"\s+[│╭╰]", text[len(want):]):
+                # the frame's locals panel stands to the right of the code (Columns): the row continues with its border
+                text = want
             if num != lineno:
                 ctx.violation("traceback-marks-wrong-line-number:leading_blank=%s" % (src.startswith("\n")),
                               dict(wit, frame=name, lineno=lineno, shown_number=num))
